@@ -379,12 +379,21 @@ def run_cub(c):
     r = list(r)
     ck = Checker()
     if coplanar_face and not empty:
-        # the operand lies in a face plane: infinitely many common points possible -> soundness only
+        # the operand lies in a face plane: infinitely many common points possible -> soundness only:
+        # every returned point lies in the box AND on the other operand (within the segment for segments)
         for pt in r:
             a = np.asarray(pt.array)
-            xyz = a[:-1] / a[-1]
-            bc = [np.dot(xyz - o, e) / np.dot(e, e) for e in (u, w, x)]
-            ck.check(all(-1e-7 <= t <= 1 + 1e-7 for t in bc), site + ":returned-point-in-box", bc)
+            if not ck.check(np.all(np.isfinite(a)) and abs(a[-1]) > 1e-12, site + ":returned-point-finite", a.tolist()):
+                continue
+            xyz = np.real(a[:-1] / a[-1])
+            bc = np.array([np.dot(xyz - o, e) / np.dot(e, e) for e in (u, w, x)])
+            ck.check(all(-1e-7 <= t <= 1 + 1e-7 for t in bc), site + ":returned-point-in-box", bc.tolist())
+            pf = np.array([float(t) for t in p])
+            df = np.array([float(t) for t in d])
+            t = np.dot(bc - pf, df) / np.dot(df, df)
+            ck.check(np.linalg.norm(pf + t * df - bc) < 1e-7, site + ":returned-point-on-line", bc.tolist())
+            if c["other"] == "segment":
+                ck.check(-1e-7 <= t <= 1 + 1e-7, site + ":returned-point-on-segment", (bc.tolist(), float(t)))
         return ck.result()
     exp = []
     if not empty and tmin is not None and tmin <= tmax:
